@@ -103,7 +103,7 @@ func c19(c *Ctx) {
 		for _, cs := range an.CallsNamed(srpIn, load.SrpPkg+".bigExp") {
 			if len(cs.Common.Args) == 3 {
 				d := an.NewDeps(c.inRepoOrDry).Of(cs.Common.Args[1])
-				if d.Has("param:"+load.SrpPkg+".getInputCheckPassword#3") {
+				if d.Has("param:" + load.SrpPkg + ".getInputCheckPassword#3") {
 					okA = true
 				}
 			}
